@@ -37,7 +37,8 @@ def finding_matches(entry, case, impl, model, oracle):
 CHECK = {
     "property": "C23",
     "props": "Props/C23.v",
-    "theorems": ["c23_fields_partial"],
+    "theorems": ["c23_fields_disjoint", "c23_escape", "c23_character_string", "c23_name", "c23_uint", "c23_class", "c23_type",
+                 "c23_ipv4", "c23_ipv6", "c23_navigation", "c23_line_end", "c23_rdata", "c23_record_line", "c23_line", "c23_file_roundtrip"],
     "allowed_axioms": [],
     "suites": [
         {"name": "zonefile", "runner_name": "C24_run", "impl_bin": "impl_c24", "extract": "Extract/ExC24.v", "driver": "run_c24.ml",
@@ -52,8 +53,11 @@ CHECK = {
     ],
     "trusted_base": [
         "Coq 8.16.1 kernel; axioms: none",
-        "the Python renderer checks/zfgen.py is the independent specification of what a rendered file denotes (it never reads the parser); "
-        "a Coq renderer with a parse-of-render theorem is NOT part of this check (see docs/C23.md): the proved part is c23_fields_partial",
+        "Spec/ZfRenderS.v (the Coq renderer: choices, legality file_ok, render, number_lines) is the specification of the theorems; it covers every "
+        "RR type the parser has a syntax for except WKS (only its \\# form), $ORIGIN/$TTL but not $INCLUDE lines, IPv6 text in the eight-group form only "
+        "(no '::', no embedded IPv4), no raw CR in unquoted tokens; WKS_BIT order and the set of mnemonics follow the implementation (docs/C23.md)",
+        "the Python renderer checks/zfgen.py is the independent specification of the differential run (it never reads the parser) and covers "
+        "the presentations the Coq renderer leaves out ($INCLUDE, WKS, '::' and embedded-IPv4 forms)",
         "the model of the parser (Model/Zf*.v, shared with C24) and its correspondence to the code (tested, not proved)",
         "extraction: ExtrOcamlBasic only; OCaml 4.13.1 ocamlopt",
     ],
@@ -61,13 +65,16 @@ CHECK = {
 }
 
 MANIFEST = {
-    "level_text": ("Partial proof + differential check: Coq theorem c23_fields_partial (a token accepted as a TTL is never accepted as a CLASS or a TYPE, and a token accepted "
-                   "as a CLASS is never accepted as a TYPE, so the try-in-order of parse_ttl_and_class is the unique reading; decimal \\DDD escapes decode to the octet they "
-                   "name) about the model shared with C24 (which is proved total); the whole-file statement parse(render choices records) = records is checked, not "
-                   "proved: an independent Python renderer makes random presentation choices for every field and the real parser and the extracted model must both return "
-                   "exactly the generating records with their line numbers."),
-    "level_note": ("The whole-line / whole-file render-parse theorem of DESIGN.md is not proved (named gap). Trusted: the Python renderer as specification, the model/code "
-                   "correspondence, Coq kernel, extraction."),
-    "technique": "machine-checked proof in Coq (field-level, partial) + model/implementation/specification correspondence check on rendered files",
+    "level_text": ("Coq theorems (no axioms) about the executable model of the whole zone-file parser (shared with C24): Spec/ZfRenderS.v is an independent "
+                   "renderer of RFC 1035 section 5 files (abstract records / $ORIGIN / $TTL / blank lines + a `choices` value fixing owner form, TTL and class "
+                   "presence and order, mnemonic case or TYPEnnn/CLASSnnn, separators with blanks, tabs, parentheses, comments and LF/CRLF line breaks, quoted or "
+                   "unquoted strings, raw / \\c / \\DDD per octet, '+' and leading zeros, RFC 3597 \\# form with word breaks, comments, end of file); "
+                   "c23_file_roundtrip proves parse_all (render lines) = the denoted records in order with their line numbers, for EVERY legal choice; it rests on "
+                   "token-level (escapes, strings, names, integers, class/type, IPv4, IPv6), field-navigation, RDATA, record-line theorems. The model is tied to "
+                   "the code by a differential run in which an independent Python renderer makes random presentation choices and the real parser and the "
+                   "extracted model must both return exactly the generating records with their line numbers."),
+    "level_note": ("The Coq renderer does not cover: WKS in its own syntax, $INCLUDE lines, the '::' / embedded-IPv4 forms of IPv6 text, raw CR in unquoted "
+                   "tokens (the Python renderer of the differential run does). Trusted: the model/code correspondence (tested), Coq kernel, extraction."),
+    "technique": "machine-checked proof in Coq (parse-of-render, all stages) + model/implementation/specification correspondence check on rendered files",
     "design_ref": "DESIGN.md §4 C23",
 }
